@@ -490,7 +490,7 @@ func c05(c *core.Check) {
 	}
 
 	// ---- R10 CSS white space in word matching; element type comparison
-	r10 := c.Rule("R10", "class and ~= matching split the attribute on the five CSS white space characters only (space, tab, LF, CR, FF); the *-of-type pseudo-classes compare element names (Node.Data), since the atom of every unknown element is 0", 5)
+	r10 := c.Rule("R10", "class and ~= matching split the attribute on the five CSS white space characters only (space, tab, LF, CR, FF); the *-of-type pseudo-classes compare element names (Node.Data), since the atom of every unknown element is 0", 6)
 	// :empty ignores document white space only (Selectors 4): the text of a child is trimmed with the five characters,
 	// never with strings.TrimSpace (Unicode white space: a no-break space would make an element empty)
 	if em := p.Method(pkg, "emptyElementPseudoClassSelector", "Match"); em == nil {
